@@ -289,6 +289,21 @@ def clause_of(m, fname, key, outcome):
     return f"{fname}-{'ambiguous' if outcome == 'A' else 'not-found'}" + (f"-{impls}" if impls else ""), None
 
 
+def restore_committed_table():
+    """The library root imports the C04 modules, so a generated table on which the C04 theorems
+    fail (a defective or mutated tree) would break `lake build ColaVerif` and with it the Lean gate
+    of every other property.  After such a run put the committed copy back (it is regenerated by
+    the next run of this check anyway); the failure itself has been reported above."""
+    rel = "lean/ColaVerif/Gen/RuleTable.lean"
+    rc, so, _ = common.sh(["git", "show", "HEAD:" + rel], cwd=common.ROOT)
+    path = os.path.join(common.ROOT, rel)
+    if rc == 0 and so and so != open(path).read():
+        with open(path, "w") as f:
+            f.write(so)
+        print("note: C04 theorems fail on the regenerated rule table; restored the committed Gen/RuleTable.lean "
+              "so that the rest of the library keeps building", flush=True)
+
+
 # ------------------------------------------------------------------------------------------
 def run(ctx):
     t0 = time.time()
@@ -449,6 +464,8 @@ def run(ctx):
         "registration order is the one produced by `import cola` followed by the remaining modules in sorted order (the candidate loop is order dependent)",
         "errors raised by the selected rule are outside C04: calls are aborted after rule selection",
     ])
+    if gate_err is not None:
+        restore_committed_table()
     print(json.dumps({"tuples": cov["distinct"], "evaluations": cov["evaluations"], "distinct_nontrivial": cov["distinct_nontrivial"],
                       "calls": stats["calls"], "mismatches": len(mismatches), "real_failures": len(failures),
                       "uncovered": len(uncovered), "errors": len(errors), "gate": (gate or {}).get("obligations"),
